@@ -88,10 +88,16 @@ struct TD
   static const unsigned M = 0x7d5a11c3u;
   unsigned magic;
   int v;
-  int chk() const { if (magic != M) reg::errs.push_back("readRaw"); return v; }
-  TD() : magic(M), v(0) {}
-  TD(int k) : magic(M), v(k) {}
-  TD(const TD &o) : magic(M), v(o.chk()) {}
+  const int *self;    // points at this object's own `v`: a byte-wise copy of a TD (instead of its copy operations) shows
+  int chk() const
+  {
+    if (magic != M) reg::errs.push_back("readRaw");
+    else if (self != &v) reg::errs.push_back("bytewiseCopy");
+    return v;
+  }
+  TD() : magic(M), v(0), self(&v) {}
+  TD(int k) : magic(M), v(k), self(&v) {}
+  TD(const TD &o) : magic(M), v(o.chk()), self(&v) {}
   TD &operator=(const TD &o) { if (magic != M) reg::errs.push_back("assignRaw"); v = o.chk(); return *this; }
 };
 static_assert(std::is_trivially_destructible<TD>::value, "TD must be trivially destructible");
